@@ -84,6 +84,10 @@ def rand_cfg(rng, seed=None):
          "fb_conn": rng.choice([1.0, 0.5]), "sr": rng.choice([None, 0.9, 0.5]),
          "input_scaling": rng.choice([1.0, 0.5]), "bias_scaling": rng.choice([1.0, 0.5]),
          "fb_scaling": rng.choice([1.0, 0.5]), "lr": rng.choice([1.0, 0.5])}
+    # feedback attached late: the reservoir first runs on its own (noisy warm-up), then  res <<= readout ; initialize_feedback
+    c["fb_late"] = bool(c["fb"] and rng.random() < 0.6)
+    if c["fb_late"] and rng.random() < 0.85 and c["g_in"] == 0.0 and c["g_rc"] == 0.0:
+        c[rng.choice(["g_in", "g_rc"])] = rng.choice([0.25, 0.5])
     if c["units"] == 8 and rng.random() < 0.5:
         c["din_hint"] = 6     # Bernoulli Win with 48 entries: rich enough for a "different seeds" claim
     return c
@@ -102,13 +106,35 @@ def own_script(rng, cfg):
     """Operations addressed to one reservoir (ids filled in later)."""
     din = cfg.get("din_hint") or rng.choice([1, 1, 2, 3])
     ops = [{"op": "construct", "cfg": cfg}]
-    if cfg["fb"] or rng.random() < 0.6:
+    if (cfg["fb"] and not cfg.get("fb_late")) or rng.random() < 0.6:
         ops.append({"op": "init", "din": din})
+    if cfg.get("fb_late"):
+        ops += warmup(rng, din)
+        ops.append({"op": "attachfb"})
     if cfg["fb"]:
         ops.append({"op": "initfb", "dfb": FB_DIM})
     for _ in range(rng.choice([1, 1, 2])):
         ops.append({"op": "run", "x": rng.randint(0, 2), "din": din, "T": rng.choice([1, 3, 4, 6])})
     return ops
+
+
+def warmup(rng, din):
+    """Runs of the reservoir on its own before its feedback connection exists (they consume noise draws)."""
+    return [{"op": "run", "x": rng.randint(0, 2), "din": din, "T": rng.choice([1, 2, 5, 7]), "warm": True}
+            for _ in range(rng.choice([0, 1, 1, 2]))]
+
+
+def vary_warmup(rng, script):
+    """Same script with another warm-up (other numbers of runs / steps before the feedback is attached)."""
+    din = [o["din"] for o in script if o["op"] == "run"][0]
+    out = []
+    for o in script:
+        if o.get("warm"):
+            continue
+        if o["op"] == "attachfb":
+            out += warmup(rng, din)
+        out.append(o)
+    return out
 
 
 def junk_op(rng, st):
@@ -194,8 +220,9 @@ def gen_history(rng, idx, sk=True):
     script = own_script(rng, cfg)
     ncopies = rng.choice([2, 2, 3])
     copies = []
+    vary = bool(cfg.get("fb_late") and cfg["seed"][0] == "int" and rng.random() < 0.7)
     for k in range(ncopies):
-        ops = instantiate(script, st)
+        ops = instantiate(vary_warmup(rng, script) if (vary and k > 0) else script, st)
         if cfg["seed"][0] == "none":
             ops = [{"op": "set_seed", "s": 3}] + ops       # an unseeded protagonist lives under a global seed
         copies.append(ops)
@@ -226,7 +253,8 @@ def gen_history(rng, idx, sk=True):
                 streams[k][:] = []
             else:
                 hist.append(streams[k].pop(0))
-    return {"index": idx, "ops": hist, "ncopies": ncopies, "proto_seed": cfg["seed"], "has_twin": len(copies) > ncopies}
+    return {"index": idx, "ops": hist, "ncopies": ncopies, "proto_seed": cfg["seed"], "has_twin": len(copies) > ncopies,
+            "vary": vary}
 
 
 # ------------------------------------------------------------------------------------------ running a history
@@ -286,10 +314,16 @@ def run_history(hist):
                               bias_scaling=c["bias_scaling"], fb_scaling=c["fb_scaling"], input_connectivity=c["in_conn"],
                               rc_connectivity=c["rc_conn"], fb_connectivity=c["fb_conn"], seed=seed_of(c["seed"]),
                               name=uname("res"))
-                if c["fb"]:
+                if c["fb"] and not c.get("fb_late"):
                     ro = Ridge(FB_DIM, name=uname("ro"))       # untrained readout: its output (the feedback) is always 0
                     ro.initialize(np.zeros((1, c["units"])), np.zeros((1, FB_DIM)))
                     n <<= ro
+                nodes[o["i"]] = n
+            elif k == "attachfb":
+                n = nodes[o["i"]]
+                ro = Ridge(FB_DIM, name=uname("ro"))
+                ro.initialize(np.zeros((1, n.output_dim)), np.zeros((1, FB_DIM)))
+                n <<= ro
                 nodes[o["i"]] = n
             elif k == "init":
                 n = nodes[o["i"]]
@@ -366,11 +400,13 @@ def to_coq(hist, obs):
             c = o["cfg"]
             pair = lambda a, b: "(%s,%s)" % (nat(a), nat(b))
             out.append("OConstruct %s (mkCfg %s %s %s %s %s %s %s %s %s %s %s %s %s)" % (
-                nat(o["i"]), nat(c["units"]), src(c["seed"]), coqbool(c["fb"]), gain(c["g_in"]), gain(c["g_fb"]), gain(c["g_rc"]),
+                nat(o["i"]), nat(c["units"]), src(c["seed"]), coqbool(c["fb"] and not c.get("fb_late")), gain(c["g_in"]), gain(c["g_fb"]), gain(c["g_rc"]),
                 nat(idist(c["noise_type"])), coqbool(c["bias"]),
                 pair(iconn(c["rc_conn"]), ipost(("sr", c["sr"]))), pair(iconn(c["in_conn"]), ipost(("scale", c["input_scaling"]))),
                 pair(iconn(c["in_conn"]), ipost(("scale", c["bias_scaling"]))), pair(iconn(c["fb_conn"]), ipost(("scale", c["fb_scaling"]))),
-                nat(ihyp((c["lr"], c["fb"])))))
+                nat(ihyp((c["lr"],)))))
+        elif k == "attachfb":
+            out.append("OAttachFb %s" % nat(o["i"]))
         elif k == "init":
             out.append("OInit %s %s" % (nat(o["i"]), nat(o["din"])))
         elif k == "initfb":
@@ -400,7 +436,7 @@ def nontrivial(hist, obs):
     """>= 2 copies of the protagonist whose arrays were observed, separated by at least one operation that consumes or
     reseeds the global generator (or constructs/runs another reservoir)."""
     ops = hist["ops"]
-    if hist["proto_seed"][0] == "probe":
+    if hist["proto_seed"][0] == "probe" or hist.get("vary"):
         return True
     cons = [k for k, o in enumerate(ops) if o["op"] == "construct" and o["i"] < hist["ncopies"]]
     if len(cons) < 2:
@@ -474,8 +510,12 @@ def _judge_history(h):
             per.setdefault(nd - 1, []).append((tag, hs))
     ref = per.get(0, [])
     kind = {"int": "seeded", "freshgen": "generator", "none": "set_seed"}[h["proto_seed"][0]]
+    if h.get("vary"):     # copies differ in their warm-up runs: the weights (not the trajectories) must coincide
+        ref = [(t, x) for t, x in ref if t < 4]
     for k in range(1, h["ncopies"]):
         cur = per.get(k, [])
+        if h.get("vary"):
+            cur = [(t, x) for t, x in cur if t < 4]
         for (t1, h1), (t2, h2) in zip(ref, cur):
             if t1 != t2 or h1 != h2:
                 return _viol("%s:%s" % (kind, TAGN.get(t1, "?")),
